@@ -2,82 +2,80 @@ import UtilModel.Conc.Sim
 namespace UtilModel.Conc
 open UtilModel
 
-theorem jinfo_waiting (x : Job) (st' : JS) (sq : Option Nat) (h : x.st.waiting = true) (h' : st'.waiting = true) :
-    jinfo { x with st := st', seq := sq } = jinfo x := by
-  simp only [jinfo, JInfo.mk.injEq, true_and]
-  rw [jview_waiting x h, jview_waiting _ (by simpa using h')]
+theorem limit_some {s : St} {ms : C18St} (hR : RelC18 s ms) {t : Nat} {ts : TS} (ha : s.th[t]? = some ts) :
+    ms.limit = some s.limit := by
+  rw [hR.limit, created_of_th s hR.inv.toTInv t ts ha]; rfl
 
-theorem kept_place (s : St) (j : Nat) (jb : Job) (hj : s.jobs[j]? = some jb) (hf : jb.st = .fresh)
-    (hsq : jb.seq = none) : Kept s (place s j) := by
-  unfold place
-  split
-  · exact kept_set s _ j jb _ hj (setJob_eq hj _ _) (jinfo_waiting jb _ _ (by rw [hf]; rfl) rfl)
-      (by intro q hq; rw [hsq] at hq; cases hq) _ rfl
-  · exact kept_set s _ j jb _ hj (setJob_eq hj _ _) (jinfo_waiting jb _ _ (by rw [hf]; rfl) rfl)
-      (by intro q hq; rw [hsq] at hq; cases hq) _ rfl
+theorem crel_finish {s : St} {t : Nat} {ts : TS} {c : CInfo} (h : CRel s t ts c) (th' : List TS) :
+    CRel { s with th := th' } t .finished { c with returned := true } := by
+  refine ⟨rfl, h.canc, by simp [TS.wiN0], by simp [TS.isWS], ?_, ?_⟩
+  · intro q r ch e; cases e
+  · intro n0 e; simp [TS.wiN0] at e
 
-theorem fold_place_kept (js : List Nat) (s : St) (hJ : JInv s)
-    (hfr : ∀ j : Nat, j ∈ js → ∃ jb : Job, s.jobs[j]? = some jb ∧ jb.st = .fresh) (hnd : js.Nodup) :
-    Kept s (js.foldl place s) := by
-  induction js generalizing s with
-  | nil => exact kept_refl s
-  | cons j rest ih =>
-    obtain ⟨jb, hj, hf⟩ := hfr j (by simp)
-    obtain ⟨hJ1, F1⟩ := place_step s j jb hJ hj hf
-    rw [List.nodup_cons] at hnd
-    have hfr1 : ∀ u : Nat, u ∈ rest → ∃ x : Job, (place s j).jobs[u]? = some x ∧ x.st = .fresh := by
-      intro u hu
-      obtain ⟨x, hx, hxf⟩ := hfr u (by simp [hu])
-      have : u ∉ [j] := by intro e; simp at e; subst e; exact hnd.1 hu
-      exact ⟨x, by rw [F1.other u this]; exact hx, hxf⟩
-    simp only [List.foldl_cons]
-    exact kept_trans (kept_place s j jb hj hf ((hJ.seqs j jb hj).1.mp hf)) (ih (place s j) hJ1 hfr1 hnd.2)
+/-- a call returns: `th[t] := finished`, the monitor marks it returned -/
+theorem sim_ret (s : St) (ms : C18St) (t : Nat) (ts : TS) (hR : RelC18 s ms) (ha : s.th[t]? = some ts)
+    (hi' : Inv { s with th := s.th.set t .finished }) :
+    ∃ c : CInfo, ms.calls[t]? = some c ∧
+      RelC18 { s with th := s.th.set t .finished } (ms.setCall t fun c => { c with returned := true }) := by
+  obtain ⟨c, hc⟩ := calls_get hR ha
+  refine ⟨c, hc, ?_⟩
+  rw [setCall_eq hc]
+  exact rel_set s _ ms t .finished _ hR hi' (kept_th s _ s.cx s.mail s.bc) rfl rfl rfl rfl
+    (crel_finish (hR.calls t ts c ha hc) _)
 
-theorem kept_pushInit (s : St) (j : Nat) (jb : Job) (hj : s.jobs[j]? = some jb) (hf : jb.st = .fresh)
-    (hsq : jb.seq = none) : Kept s (pushInit s j) :=
-  kept_set s _ j jb _ hj (setJob_eq hj _ _) (jinfo_waiting jb _ _ (by rw [hf]; rfl) rfl)
-    (by intro q hq; rw [hsq] at hq; cases hq) _ rfl
+theorem sim_retNew (s : St) (t : Nat) (s' : St) (ms : C18St) (hR : RelC18 s ms)
+    (hs : step s (.retNew t) = some s') :
+    ∃ ms', (monC18g false).step ms (.retNew t) = some ms' ∧ RelC18 s' ms' := by
+  have hi' := step_inv s _ s' hR.inv hs
+  simp only [step] at hs; split at hs <;> simp at hs; subst hs
+  rename_i ha
+  obtain ⟨c, hc, hrel⟩ := sim_ret s ms t _ hR ha hi'
+  exact ⟨_, rfl, hrel⟩
 
-theorem fold_push_kept (js : List Nat) (s : St) (hJ : JInv0 s)
-    (hfr : ∀ j : Nat, j ∈ js → ∃ jb : Job, s.jobs[j]? = some jb ∧ jb.st = .fresh) (hnd : js.Nodup) :
-    Kept s (js.foldl pushInit s) := by
-  induction js generalizing s with
-  | nil => exact kept_refl s
-  | cons j rest ih =>
-    obtain ⟨jb, hj, hf⟩ := hfr j (by simp)
-    have hJ1 : JInv0 (pushInit s j) := jinv0_enq s j jb hJ hj hf
-    have hother : ∀ u : Nat, u ≠ j → (pushInit s j).jobs[u]? = s.jobs[u]? := by
-      intro u hu
-      simp only [pushInit, setJob_eq hj]
-      exact getElem?_set_ne' _ _ _ _ (fun e => hu e.symm)
-    rw [List.nodup_cons] at hnd
-    have hfr1 : ∀ u : Nat, u ∈ rest → ∃ x : Job, (pushInit s j).jobs[u]? = some x ∧ x.st = .fresh := by
-      intro u hu
-      obtain ⟨x, hx, hxf⟩ := hfr u (by simp [hu])
-      have : u ≠ j := by intro e; subst e; exact hnd.1 hu
-      exact ⟨x, by rw [hother u this]; exact hx, hxf⟩
-    simp only [List.foldl_cons]
-    exact kept_trans (kept_pushInit s j jb hj hf ((hJ.seqs j jb hj).1.mp hf)) (ih (pushInit s j) hJ1 hfr1 hnd.2)
+theorem sim_retEnq (s : St) (t : Nat) (q r : Int) (s' : St) (ms : C18St) (hR : RelC18 s ms)
+    (hs : step s (.retEnq t q r) = some s') :
+    ∃ ms', (monC18g false).step ms (.retEnq t q r) = some ms' ∧ RelC18 s' ms' := by
+  have hi' := step_inv s _ s' hR.inv hs
+  simp only [step] at hs; split at hs <;> simp at hs
+  rename_i q' r' ha
+  obtain ⟨⟨rfl, rfl⟩, rfl⟩ := hs
+  obtain ⟨c, hc, hrel⟩ := sim_ret s ms t _ hR ha hi'
+  have hp : PairOK s.limit q r := hR.inv.th t _ ha
+  refine ⟨_, ?_, hrel⟩
+  simp [monC18g, limit_some hR ha, pairOK_of _ _ _ hp]
 
-/-- a queued job is handed to a worker -/
-theorem kept_assign (s : St) (j : Nat) (jb : Job) (hj : s.jobs[j]? = some jb) (hst : jb.st = .queued)
-    (s1 : St) (h1 : s1.jobs = setJobSt s.jobs j .assigned) : Kept s s1 := by
-  refine kept_set s _ j jb { jb with st := .assigned } hj (setJobSt_eq hj _) ?_ (fun _ h => h) s1 h1
-  have := jinfo_waiting jb .assigned jb.seq (by rw [hst]; rfl) rfl
-  simpa using this
+theorem sim_retWS (s : St) (t : Nat) (r : Res) (s' : St) (ms : C18St) (hR : RelC18 s ms)
+    (hs : step s (.retWS t r) = some s') :
+    ∃ ms', (monC18g false).step ms (.retWS t r) = some ms' ∧ RelC18 s' ms' := by
+  have hi' := step_inv s _ s' hR.inv hs
+  simp only [step] at hs; split at hs <;> simp at hs
+  rename_i r' ha
+  obtain ⟨rfl, rfl⟩ := hs
+  obtain ⟨c, hc, hrel⟩ := sim_ret s ms t _ hR ha hi'
+  exact ⟨_, rfl, hrel⟩
 
-theorem update_kept (n : Nat) (s : St) (h : JInv0 s) : Kept s (update s n) := by
-  induction n generalizing s with
-  | zero => exact kept_refl s
-  | succ n ih =>
-    unfold update
-    split
-    · rename_i hr
-      split
-      · exact kept_refl s
-      · rename_i j rest hq
-        obtain ⟨jb, hj, hst, _⟩ := queue_head s h j rest hq
-        exact kept_trans (kept_assign s j jb hj hst _ rfl) (ih _ (jinv0_popNew s j rest h hq hr))
-    · exact kept_refl s
+theorem isFinished_view {s : St} {ms : C18St} (hR : RelC18 s ms) (j : Nat) (jb : Job)
+    (hj : s.jobs[j]? = some jb) (hf : jb.st = .finished) (hn : jb.isNil = false) : ms.isFinished j = true := by
+  simp [C18St.isFinished, hR.jobs, hj, jinfo, jview, hf, hn]
+
+theorem sim_retWI (s : St) (t : Nat) (r : Res) (s' : St) (ms : C18St) (hR : RelC18 s ms)
+    (hs : step s (.retWI t r) = some s') :
+    ∃ ms', (monC18g false).step ms (.retWI t r) = some ms' ∧ RelC18 s' ms' := by
+  have hi' := step_inv s _ s' hR.inv hs
+  simp only [step] at hs; split at hs <;> simp at hs
+  rename_i r' n0 ha
+  obtain ⟨rfl, rfl⟩ := hs
+  obtain ⟨c, hc, hrel⟩ := sim_ret s ms t _ hR ha hi'
+  have hcr := hR.calls t _ c ha hc
+  have hsnap : r = .nil → c.snap.all ms.isFinished = true := by
+    intro hr; subst hr
+    rw [List.all_eq_true]
+    intro j hj
+    obtain ⟨jb, q, a, b, c', d⟩ := hcr.snapWI n0 rfl j hj
+    have hfin := (hR.inv.th t _ ha).2 rfl j jb q a b c'
+    exact isFinished_view hR j jb a hfin d
+  refine ⟨_, ?_, hrel⟩
+  simp only [monC18g, hc]
+  rw [if_pos hsnap]
 
 end UtilModel.Conc
